@@ -68,6 +68,11 @@ def run(tier):
                         return 'diagnostic printed for %s: %s' % (kind, c['stderr_head'][:80])
                     return None
                 ex.add(pname, 'fast', ['-n%d' % W] + args, data, orc, '%s W=%d %s' % (pname, W, kind), opts)
+                # the same with a signal mask inherited from a parent that had everything blocked
+                # (the mask survives exec; lbzip2 must not depend on it)
+                if W == (3 if pname != 'copy' else 1) and kind in ('read-EIO', 'write-ENOSPC', 'write-EPIPE', 'write-EFBIG-ignored'):
+                    ex.add(pname, 'fast', ['-n%d' % W] + args, data, orc, '%s W=%d %s inherited-mask' % (pname, W, kind),
+                           dict(opts, inherit_mask='usr1,usr2,int,term,pipe,xfsz'))
     done = 0
     for d in range(1, (2 if quick else 3) + 1):
         if d == 2 and quick:
